@@ -24,7 +24,11 @@ KIT_L = [
     'nbdime.diff_utils.count_consumed_symbols', 'nbdime.diffing.sequences.diff_sequence',
     'nbdime.diffing.generic.diff_lists',
     'nbdime.diffing.snakes.compute_diff_from_snakes', 'nbdime.diffing.generic.diff_sequence_multilevel',
+    # Kit M (mapping diff / patch)
     'nbdime.patching.patch_dict',
+    'nbdime.diff_format.op_add', 'nbdime.diff_format.op_remove', 'nbdime.diff_format.op_replace', 'nbdime.diff_format.op_patch#str',
+    'nbdime.diff_format.MappingDiffBuilder.__init__', 'nbdime.diff_format.MappingDiffBuilder.append',
+    'nbdime.diff_format.MappingDiffBuilder.validated', 'nbdime.diffing.generic.diff_dicts',
 ]
 
 
